@@ -243,10 +243,9 @@ func c06Run(run *ev.Run) {
 	seen := map[string]string{}
 	for i, l := range logins {
 		for kind, v := range map[string]string{"session-id": l.SID, "state": l.State, "nonce": l.Nonce} {
-			wantLen := 32
-			if kind == "session-id" {
-				wantLen = 64
-			}
+			// the statement fixes no length; anything below 20 characters of a 62-64 symbol alphabet (< ~120 bits) is
+			// treated as guessable
+			wantLen := 20
 			okc := len(v) >= wantLen
 			for _, ch := range v {
 				if !strings.ContainsRune(c06Charset+"-_", ch) {
